@@ -1,5 +1,6 @@
 import Ubx.Proofs.WalkSpec
 import Ubx.Proofs.Message
+import Ubx.Proofs.Assigns
 /-!
 # C02 — parsed attributes are exactly the field values the definition prescribes
 
@@ -39,6 +40,23 @@ theorem C02_message_attrs_partial (ctx : Ctx) (cls id : Bytes) (mode : Mode) (bf
   unfold construct
   simp only [hmode, walkFor, hd, kwPayload?, Option.getD_some, hw, lenChecksum, hlen, if_true]
   exact ⟨_, rfl, rfl, rfl, rfl⟩
+
+/-- **exactly the attributes the definition names, in payload order, each with the decoded value**: for a definition
+    without `_HP` parts whose names are new, pairwise distinct and settable (grammar rules W5/W6), the walk over the
+    laid-out payload ends with the environment extended by precisely `assignsItems`: the list, in payload order, of
+    (name with `_NN` indices, value decoded from the field's own bytes) -/
+theorem C02_attrs_in_payload_order (c : WCtx) (hp : c.hasPayload = true) (hcv : c.cfgval = false)
+    (d : List Item) (vts : List VT) (pre post : Bytes) (env env' : Env) (l : List (AName × PyVal))
+    (hsh : shapeItems d vts post = true) (hs : specItems c [] d vts env = .ok env')
+    (hn : noHPL d = true) (hfl : flagsOKL d = true)
+    (hl : assignsItems c.parsebf [] d vts = .ok l)
+    (hnd : (env.map (·.1) ++ l.map (·.1)).Nodup) (hset : ∀ x ∈ l, settable c x.1 = true) :
+    wItems c [] d ⟨pre.length, pre ++ encItems vts ++ post, env⟩
+      = .ok ⟨pre.length + (encItems vts).length, pre ++ encItems vts ++ post, env ++ l⟩ := by
+  obtain ⟨l', h1, h2⟩ := specItems_assigns c [] d vts env env' hn hfl hs
+  rw [hl] at h1; cases h1
+  rw [applyAll_fresh c env l hnd hset] at h2; cases h2
+  exact wItems_spec c hp hcv [] d vts pre post env (env ++ l) hsh hs
 
 /-- flags are the bit slices of the little-endian bitfield, reserved flags are not exposed: the flag loop on an
     integer `B` stores `(B >> off) & (2^w − 1)` for each non-reserved flag and moves on by `w` bits -/
